@@ -63,7 +63,7 @@ Lemma Rf_stop_timer s ot : Rf s (stop_timer s ot).
 Proof. unfold stop_timer. destruct ot as [t|]; [|rfx]. destruct (nth_error (timers s) t) as [x|]; [|rfx]. destruct (tst x); rfx. Qed.
 Lemma Rf_start s r c w f : Rf s (start_rec s r c w f).
 Proof.
-  unfold start_rec. destruct (negb f && rsucc (getr s r)); [rfx|].
+  unfold start_rec. destruct (negb f && rsucc (getr s r) || rnil (getr s r)); [rfx|].
   destruct (negb f && is_some (rctx (getr s r)) && negb (rexited (getr s r)) && ctx_live s (rctx (getr s r))); [rfx|]. cbn zeta.
   eapply Rf_trans; [apply Rf_stop_timer|]. eapply Rf_trans; [apply Rf_cancel_inst|]. rfx.
 Qed.
@@ -203,6 +203,7 @@ Proof.
     repeat match goal with |- context [match ?x with _ => _ end] => destruct x end; auto.
   - destruct (PL EGet eq_refl) as [A B]. now rewrite A, B.
   - cbn [step]. destruct (Rf_cancel_root (hs h) (n2n c)) as [A B]. now rewrite A, B.
+  - split; [exact R1 | exact R2].
 Qed.
 
 (* ------------------------------------------------------------------ *)
@@ -244,6 +245,7 @@ Proof.
     destruct HR as [HK HC]. split; [|cbn [croots set_croots map]; now rewrite HC].
     unfold root_canc in *. cbn [kctx croots set_croots set_insts existsb].
     destruct HK as [A|[A1 A2]]; [left; exact A | right; split; [exact A1 | rewrite A2; apply orb_true_r]].
+  - exact HR.
 Qed.
 
 (* delay, script, clock *)
@@ -262,6 +264,7 @@ Proof.
     match goal with |- _ = clock (fold_left (ctx_key _ ?sm _) _ _) => destruct (Kx_set_context_from (hs h) (n2n c) sm (nz r)) as [E _] end. rewrite E. exact C.
   - cbn [step]. unfold advance. cbn [clock set_timers set_clock]. now rewrite C.
   - cbn [step]. unfold cancel_root. destruct (Nat.eqb (n2n c) 0); exact C.
+  - exact C.
 Qed.
 
 (* ------------------------------------------------------------------ *)
